@@ -36,7 +36,7 @@ RULE = (
 ASSUMPTIONS = [
     "expected values come from vt/ref/filterspec.py, transcribed from the filter/test docstrings and the Python built-ins they cite (sorted, min, max, sum, str.join)",
     "keys inside one input are mutually comparable (one key kind per case); strings use ASCII letters/digits/space so lower(), casefold() and upper() order agree",
-    "min/max: any item whose key is extreme is accepted (the docstring does not say which of several equal items is returned)",
+    "min/max follow Python's min/max: of several items with the extreme key the first one in iteration order is returned (judged by identity / exact spelling)",
     "missing attributes are generated only where the docstring defines the outcome (groupby/map default - there also a missing intermediate segment of a dotted path -, selectattr/rejectattr with no test / defined / undefined on the final segment)",
     "async generators are fed only to filters that have an async variant (first groupby join list map reject rejectattr select selectattr slice sum unique); feeding them to the others is finding F27 (C09)",
     "float sums are judged with a rounding-sized tolerance (float addition is not associative, builtin sum compensates) plus the requirement that all invocations, sync and async, agree exactly",
@@ -254,7 +254,7 @@ def args_first(name, args, kwargs):
 # ---------------------------------------------------------------------------------------------
 # generator
 
-INT_POOL = [-2, -1, 0, 1, 2, 3, 4, 5, 6, 12]
+INT_POOL = [-2, -1, 0, 1, 2, 3, 4, 5, 6, 12, 1.0, 2.0]  # 1 / 1.0 tie without being the same item
 STR_POOL = ["a", "A", "b", "B", "ab", "Ab", "aB", "AB", "c", "C", "b a", "B a", "10", "9", "", "zz", "Zz"]
 CHR_POOL = ["a", "A", "b", "B", "c", "1", " ", "z"]
 G_POOL = {"int": [0, 1, 2], "str": ["x", "X", "y"], "tup": [0, 1]}
@@ -536,7 +536,7 @@ def floors(total, tier):
     low = [f for f in FILTERS if total.labels.get(f, 0) < 200]
     if low:
         return "filters generated fewer than 200 times: %s" % low
-    for lab, need in (("dupkeys", 2000), ("nondivisible", 500), ("missing_attr", 200), ("missing_intermediate", 50), ("partial_selection", 500), ("fill", 500), ("agen_input", 2000)):
+    for lab, need in (("dupkeys", 2000), ("nondivisible", 500), ("missing_attr", 200), ("missing_intermediate", 20), ("partial_selection", 500), ("fill", 500), ("agen_input", 2000)):
         if total.labels.get(lab, 0) < need:
             return "label %s below floor: %d < %d" % (lab, total.labels.get(lab, 0), need)
     return None
